@@ -9,9 +9,9 @@ CONSTANTS SearchKeys, CondKeys, MaxConds, PathNames, MaxPath, DoEmit
 
 CondVals == {[kind |-> "s", v |-> "x"], [kind |-> "star", v |-> "*"], [kind |-> "b", v |-> "true"], [kind |-> "f", v |-> "1"]}
 AllConds == {[k |-> k, neg |-> n, kind |-> cv.kind, v |-> cv.v] : k \in CondKeys, n \in BOOLEAN, cv \in CondVals}
-CondSets == {{}} \cup {{c} : c \in AllConds}
+CondSets == {{}} \cup (IF MaxConds >= 1 THEN {{c} : c \in AllConds} ELSE {})
             \cup (IF MaxConds >= 2 THEN UNION {{{c, d} : d \in {e \in AllConds : <<e.neg, e.k>> # <<c.neg, c.k>>}} : c \in AllConds} ELSE {})
-SmallCondSets == {{}} \cup {{c} : c \in AllConds}
+SmallCondSets == {{}} \cup (IF MaxConds >= 1 THEN {{c} : c \in AllConds} ELSE {})
 RECURSIVE NamePaths(_)
 NamePaths(l) == IF l = 0 THEN {<<>>}
                 ELSE LET P == NamePaths(l-1) IN P \cup {Append(p, s) : p \in {q \in P : Len(q) = l-1}, s \in PathNames}
@@ -34,4 +34,5 @@ Spec == GenSpec
 cScalars == {VS("x"), VS("y"), VB("true"), VF("1")}
 cScalarsSmall == {VS("x"), VB("true"), VF("1")}
 cConts == {EmptyMap, EmptyList}
+cScalars1 == {VS("x")}
 =============================================================================
